@@ -155,9 +155,15 @@ class Lock:
         self.f.close()
 
 
+# properties whose Coq development imports another property's directory
+DEPS = {"C03": ["C01"], "C12": ["C01"], "C08": ["C01"]}
+
+
 def coq_flags(prop=None):
     flags = ["-Q", os.path.join(COQ, "Common"), "PAFCommon"]
     if prop:
+        for d in DEPS.get(prop, []):
+            flags += ["-Q", os.path.join(COQ, d), "PAF" + d]
         flags += ["-Q", os.path.join(COQ, prop), "PAF" + prop]
     return flags
 
@@ -167,6 +173,8 @@ def make_dir(name, timeout=1500):
     d = os.path.join(COQ, name)
     files = sorted(f for f in os.listdir(d) if f.endswith(".v"))
     proj = ["-Q ../Common PAFCommon"]
+    for d in DEPS.get(name, []):
+        proj.append("-Q ../%s PAF%s" % (d, d))
     if name != "Common":
         proj.append("-Q . PAF" + name)
     proj += files
@@ -550,7 +558,7 @@ class Ctx:
     def build(self, extra_dirs=()):
         """Build Common + prop dir; audit; collect assumptions. Returns True if all proof obligations hold."""
         ok_all = True
-        dirs = ["Common"] + list(extra_dirs) + [self.prop]
+        dirs = ["Common"] + [d for d in DEPS.get(self.prop, []) if d not in extra_dirs] + list(extra_dirs) + [self.prop]
         for d in dirs:
             ok, log = make_dir(d)
             if not ok:
